@@ -14,7 +14,9 @@
 (*   end   the scenario completed                                          *)
 (* Every res event must satisfy the outcome rule of Resolution.tla         *)
 (* (AFail: matching soundness, one type per variable, output = the         *)
-(* substitution, no-match / ambiguity errors, unique minimum rank) with    *)
+(* substitution, no-match / ambiguity errors, unique minimum rank, and the *)
+(* formula-independent subsumption clause: the selected candidate is not   *)
+(* strictly more general than another matching candidate) with             *)
 (* the ranks THE TREE reported (in-family where the event lists the        *)
 (* candidate, else its solo rank), and all res events of an item must      *)
 (* agree (order independence).  The rank formula is not asserted here.     *)
